@@ -35,7 +35,79 @@ def gen_cases(ck):
                       "where": ["first", "middle", "last"][int(ck.rng.integers(3))], "nframes": int(ck.rng.integers(2, 6)),
                       "method": [None, None, "lsq", "lsq_linear"][int(ck.rng.integers(4))], "fit": ["dlite", "taubinSVD"][int(ck.rng.integers(2))],
                       "tau_spread": float(ck.rng.choice([0.2, 0.6]))})
+        # every third series: one used junction of the tested frame carries the vertex id 0 (other frames number it differently);
+        # every third: a closest pair of junctions is turned nearly vertical and the two move sideways in opposite directions by
+        # 0.9 of the tracking bound (less than half the smallest spacing), all other junctions slower
+        cases[-1]["zero_id"] = bool(i % 3 == 0)
+        if i % 3 == 1:
+            cases[-1].update({"steep": True, "tau_spread": 0.2, "bound_factor": 0.9})
     return cases
+
+
+def steep_setup(ck, case, sc, ph, fit):
+    """turn the tissue so that its closest pair of junctions A, B (joined by a used interface, both three-fold with equations) is 0.1 rad
+    off the vertical; returns (sc, ph, A, B, column of AB) or None"""
+    def closest(ph):
+        ends = sorted({int(e[0]) for e in ph.earr} | {int(e[-1]) for e in ph.earr})
+        P = np.array([[ph.frame.vertices[k].x, ph.frame.vertices[k].y] for k in ends])
+        D = np.hypot(P[:, None, 0] - P[None, :, 0], P[:, None, 1] - P[None, :, 1]); D[np.diag_indices(len(P))] = np.inf
+        a, b = np.unravel_index(int(np.argmin(D)), D.shape)
+        return ends[a], ends[b]
+    ca, cb = closest(ph)
+    dmin = math.hypot(ph.frame.vertices[ca].x - ph.frame.vertices[cb].x, ph.frame.vertices[ca].y - ph.frame.vertices[cb].y)
+    deg = lambda v: sum(1 for ids in ph.used if v in (ids[0], ids[-1]))
+    cands = []
+    for k, ids in enumerate(ph.used):
+        a, b = int(ids[0]), int(ids[-1])
+        L = math.hypot(ph.frame.vertices[a].x - ph.frame.vertices[b].x, ph.frame.vertices[a].y - ph.frame.vertices[b].y)
+        if a in ph.rowmap and b in ph.rowmap and deg(a) == 3 and deg(b) == 3 and L <= 1.6 * dmin:
+            cands.append((L, k, a, b))
+    if not cands:
+        return None
+    _, k0, a, b = min(cands)
+    col = [k0]
+    for sign in (1.0, -1.0):
+        va, vb = ph.frame.vertices[a], ph.frame.vertices[b]
+        phi = math.atan2(vb.y - va.y, vb.x - va.x)
+        c2 = dict(case, angle=case["angle"] + sign * (math.pi / 2 - 0.1 - phi))
+        sc2 = statics.build_static(c2)
+        if sc2 is None:
+            return None
+        ph2 = physical.run_static(sc2, fit=fit, solve=False)
+        if [list(u) for u in ph2.used] != [list(u) for u in ph.used]:
+            return None
+        va, vb = ph2.frame.vertices[a], ph2.frame.vertices[b]
+        L = math.hypot(vb.x - va.x, vb.y - va.y)
+        if abs(abs(vb.x - va.x) - L * math.sin(0.1)) < 1e-6 * L:
+            case["angle"] = c2["angle"]
+            return sc2, ph2, a, b, col[0]
+    return None
+
+
+def steep_tensions(sc, ph, tau, a, b, col):
+    """tensions of the interfaces at A and B chosen so that A moves along +x and B along -x (or the reverse) with speed V, tension of AB = 1"""
+    def tangent(v, c):
+        ids = ph.used[c]
+        other = ids[-1] if ids[0] == v else ids[0]
+        return statics.true_direction(sc, ph.jun[v], ph.jun[other], len(ids))
+    for V in (1.2, 0.9, 0.6, 0.4):
+        for s in (1.0, -1.0):
+            t2 = tau.copy(); t2[col] = 1.0
+            ok = True
+            for v, sg in ((a, s), (b, -s)):
+                others = [c for c, ids in enumerate(ph.used) if v in (ids[0], ids[-1]) and c != col]
+                T = np.array([[tangent(v, c).real for c in others], [tangent(v, c).imag for c in others]])
+                rhs = np.array([V * sg, 0.0]) - np.array([tangent(v, col).real, tangent(v, col).imag])
+                try:
+                    x = np.linalg.solve(T, rhs)
+                except Exception:
+                    ok = False; break
+                if x.min() < 0.15:
+                    ok = False; break
+                t2[others] = x
+            if ok:
+                return t2
+    return None
 
 
 def d2_explains(sc, ph, coef_tol):
@@ -63,6 +135,14 @@ def run_case(ck, case, reqs, pending):
         ck.count("rejected_no_equations"); return
     n = ph.A.shape[1]
     tau = np.exp(rng.normal(size=n) * case["tau_spread"])
+    if case.get("steep"):
+        st = steep_setup(ck, case, sc, ph, fit)
+        t2 = steep_tensions(st[0], st[1], tau, *st[2:]) if st else None
+        if t2 is None:
+            ck.count("steep_unavailable")
+        else:
+            sc, ph, tau = st[0], st[1], t2
+            ck.count("steep_pair_moves_sideways")
     tau = tau / tau.mean()
     # velocities of the used junctions from closed-form tangents
     vel = {}
@@ -81,7 +161,7 @@ def run_case(ck, case, reqs, pending):
     ends = sorted({int(e[0]) for e in ph.earr} | {int(e[-1]) for e in ph.earr})
     P = np.array([[ph.frame.vertices[k].x, ph.frame.vertices[k].y] for k in ends])
     D = np.hypot(P[:, None, 0] - P[None, :, 0], P[:, None, 1] - P[None, :, 1]); D[np.diag_indices(len(P))] = np.inf
-    bound = 0.25 * min(0.5 * D.min(), 0.08 * max(np.ptp(P[:, 0]), np.ptp(P[:, 1])))
+    bound = case.get("bound_factor", 0.25) * min(0.5 * D.min(), 0.08 * max(np.ptp(P[:, 0]), np.ptp(P[:, 1])))
     nfr = max(case["nframes"], 3 if case["where"] == "middle" else 2)
     where = case["where"]
     t_test = 0 if where == "first" else (nfr - 1 if where == "last" else int(rng.integers(1, nfr - 1)))
@@ -100,6 +180,10 @@ def run_case(ck, case, reqs, pending):
             # other frames: small unrelated drift (they must only be trackable)
             pos = {vv: (ph.frame.vertices[vv].x + 0.2 * bound * rng.normal() / 3, ph.frame.vertices[vv].y + 0.2 * bound * rng.normal() / 3) for vv in vel}
         perm = np.random.default_rng(case["seed"] + 500 + t).permutation(5000)
+        if case.get("zero_id") and t == t_test:
+            v0 = sorted(vel)[int(rng.integers(len(vel)))]
+            k0 = int(np.where(perm == 0)[0][0])
+            perm[k0], perm[v0] = perm[v0], 0
         frames_bm.append(statics.clone_displaced(base, pos, vmap=(lambda i, perm=perm: int(perm[i]))))
     frames = {t: impl.make_frame(frames_bm[t], frame_id=t, time=float(times[t])) for t in range(nfr)}
     f = impl.quiet(fs.ForSys, frames, cm=False)
